@@ -2,13 +2,20 @@
 from facts import walk, callee_of, call_args, loc
 import hirq, anchors, absx, unesc
 
-EXPLANATION = ("The escape functions are per-byte transducers; their loop bodies are abstractly evaluated on literals for every byte value "
-               "(0..255) crossed with the finitely many contexts the body distinguishes (output already started?; for dn_escape: first "
-               "position?, last position?), so the decision - hex-escape or copy - and the three emitted bytes `\\`, hex(c>>4), hex(c&15) "
-               "are decided exhaustively: E1 ldap_escape escapes exactly {\\ * ( ) NUL} = complement of the filter lexer's value class "
+EXPLANATION = ("The escape functions are transducers over the items of their input; their loop bodies are abstractly evaluated on literals for every item "
+               "- each of the 256 octet values when the loop walks the input by octets (bytes(), as_bytes().iter()); each of the 128 ASCII characters, and the "
+               "non-ASCII characters as three symbolic classes by encoded length (of which only 'not ASCII', the length and the code-point range are known), when it "
+               "walks by characters (chars(), char_indices(): whole characters, each a run of 1-4 octets of the input, with its byte offset) - crossed with the "
+               "finitely many contexts the body distinguishes (output already started?; for dn_escape: the only, the first, a middle, the last item, with index and "
+               "input length as literals).  What is judged is *the octets that reach the output*, whatever container collects them: a Vec<u8> and a String are both "
+               "an octet buffer with reference semantics - Vec::push(b) appends b, String::push(ch) appends the UTF-8 encoding of ch (one octet for ch < U+0080, "
+               "for `b as char` / char::from(b) with b >= 0x80 the two octets c2/c3 .., not b), push_str / extend / extend_from_slice append the octets of their argument, "
+               "String::from_utf8 keeps them.  Per item the output must grow by the escape sequence `\\`, hex(c>>4), hex(c&15) (a lazy output first becoming input[..i]) or by "
+               "the very octets of the input the item stands for (E3.copied-octets-unchanged: an unescaped octet >= 0x80 must not be re-encoded; a non-ASCII character is "
+               "copied whole, never escaped): E1 ldap_escape escapes exactly {\\ * ( ) NUL} = complement of the filter lexer's value class "
                "(extracted from filter.rs) plus the unescaper's trigger byte; E2 dn_escape always escapes a superset of RFC 4514's specials "
                "within ASCII punctuation, space and # only in first position, space only in last; E3 emission order and the single copy of "
-               "the unescaped prefix at the first escape - or, when a first-match search over the whole input decides where the loop starts, once before the loop as input[..start], the search's predicate (evaluated like the loop body) holding wherever the loop escapes; what the loop visits is read from the term of its iterator (enumerate / zip(n..) / split_at / slicing / skip), not from its spelling; E4 the input itself is returned only when nothing was escaped (lazy output still unset, or a contains / position / any / all over the whole input that cannot miss a byte the loop escapes); E5 ldap_unescape is decided as a transducer: "
+               "the unescaped prefix at the first escape - or, when a first-match search over the whole input decides where the loop starts, once before the loop as input[..start], the search's predicate (evaluated like the loop body) holding wherever the loop escapes; what the loop visits is read from the term of its iterator (enumerate / zip(n..) / split_at / slicing / skip / chars / char_indices), not from its spelling; E4 the input itself is returned only when nothing was escaped (lazy output still unset, or a contains / position / any / all over the whole input that cannot miss a byte the loop escapes); E5 ldap_unescape is decided as a transducer: "
                "the shared unescaper is evaluated exhaustively over all 5120 (state, byte) pairs against the RFC 4515 automaton; the loop is "
                "explored as the product of its specification (unescaper state; has an escape been seen?; output = nothing / input[..k] at "
                "the first escape at offset k - empty for k = 0, yet started - / then every Value byte appended) with the program's own "
@@ -18,7 +25,7 @@ EXPLANATION = ("The escape functions are per-byte transducers; their loop bodies
                "'started' (Option, flag, emptiness of the buffer) is never read, only what it stores, copies, appends and finally returns "
                "from each reachable state: the input itself when no escape was seen, the collected output (or the UTF-8 error) when the "
                "run ends in Value, an error otherwise. Not decided: an RFC 4514 parser (there is none in the repository); round trip taken whole.")
-TRUSTED = ['String::from_utf8 / Cow semantics', 'the for loop visits the bytes in order (std enumerate)']
+TRUSTED = ['String::from_utf8 / Cow semantics', 'the for loop visits the bytes in order (std enumerate); chars() / char_indices() visit the characters of a str in order, each with the offset of its first octet', 'String::push / push_str append the UTF-8 encoding of their argument']
 UNDECIDED = ['the RFC 4514 parser side (none in the repository)', 'round-trip equality of whole strings (the per-byte transducer is decided)']
 ASSUMPTIONS = []
 SHARED = [('C08', ('P1.entry',), 'E6.filter-compiler-reads-the-whole-input')]      # the escaped value is embedded in a filter string: the compiler must read that string as given, to its last octet
@@ -349,7 +356,7 @@ def class_name(cls, unit='byte'):
 def char_model(I, cal, args, node, st):
     """std functions of `char`, on the non-ASCII classes and on literals:
       is_ascii / is_ascii_*      false for every character outside ASCII (std: "checks if the value is within the ASCII range")
-      len_utf8                   the class's L
+      len_utf8                   the class's L; of a character literal the length of its UTF-8 encoding
       char::from(b: u8)          the character with code point b ("maps a byte in 0x00..=0xFF to a char whose code point has the same value")
       char::from_u32(n)          Some(that character) for a Unicode scalar value (0..=0x10FFFF without the surrogates D800..=DFFF), None otherwise
       char::from_digit(d, r)     for 2 <= r <= 36: Some(the digit d in radix r: '0'..'9' then LOWER-case 'a'..) if d < r, None otherwise"""
@@ -360,6 +367,8 @@ def char_model(I, cal, args, node, st):
         if len(args) == 1 and name == 'len_utf8':
             return [absx.Out('val', ('lit', NA_TERMS[args[0]]), st)]
         return None
+    if cal == 'core::char::methods::<impl char>::len_utf8' and len(args) == 1 and absx.ordinal(args[0]) is not None and absx.ordinal(args[0])[0] == 'char':
+        return [absx.Out('val', ('lit', len(args[0][1].encode('utf-8'))), st)]
     lit_int = lambda x: x[0] == 'lit' and isinstance(x[1], int) and not isinstance(x[1], bool)
     if name == 'from' and ('core::convert::From<u8>' in cal and ' for char' in cal or cal == '<char as core::convert::From<u8>>::from') and len(args) == 1 and lit_int(args[0]) and 0 <= args[0][1] <= 255:
         return [absx.Out('val', ('lit', chr(args[0][1])), st)]
@@ -696,7 +705,8 @@ def transducer(ctx, E, name, roles=(None,)):
                 if content is not None and len(content) >= 1 and ('lit', 0x5c) in content[:2] and not (isinstance(cls, int) and cls == 0x5c and content == (('lit', 0x5c),)):
                     # something that begins (after a possible prefix) with a backslash: an escape, but not the specified one
                     if esc is None:
-                        wrong.append((ctxt, 'a non-ASCII character is replaced by an escape sequence: the output grows by %s' % describe_content(content)))
+                        if not any(w[0] == ctxt for w in wrong):        # (one report per context: the forks over what is not known of the character differ only in the digits)
+                            wrong.append((ctxt, 'a non-ASCII character is replaced by an escape sequence: the output grows by %s' % describe_content(content)))
                     else:
                         why = ''
                         if lazy and not started and content[-3:] == esc:
